@@ -42,6 +42,8 @@ class Ctx:
 
     def program(self, cfg="dev", crates=("core", "main")):
         from mir2smt.exec import Program
+        if cfg == "dev" and getattr(self, "cfg_override", None):
+            cfg = self.cfg_override        # C20: run another property's spec on a different compilation of the same source
         key = (cfg, tuple(crates))
         if key not in _PROG_CACHE:
             files = [self.mir[(cfg, c)] for c in crates]
